@@ -242,6 +242,19 @@ theorem until_exhausted_count (ip : Interp Rat S I) (eq : List S) (frames : List
     · exact notexh j (hno j h)
     · rw [h]; exact notexh _ hc
 
+/-- which of the two counts: for a ratio `r ≤ 1` (up-sampling or unity) it is always exactly `⌈(R+1)/r⌉` -/
+theorem until_exhausted_count_le_one (ip : Interp Rat S I) (eq : List S) (frames : List (List S)) (p0 : Nat)
+    (ist0 : I) (r : Rat) (hr : 0 < r) (hr1 : r ≤ 1) (fuel : Nat)
+    (hfuel : ⌈((frames.length - p0 : Nat) + 1 : Rat) / r⌉₊ ≤ fuel) :
+    countUntil AR ip eq fuel ⟨⟨frames, p0⟩, ist0, 0, r⟩ = ⌈((frames.length - p0 : Nat) + 1 : Rat) / r⌉₊ := by
+  obtain ⟨hno, _⟩ := count_bounds r hr (frames.length - p0)
+  have key := fun n => isExhausted_iter_iff sn cs pi ip eq frames p0 ist0 r (le_of_lt hr) n
+  refine countUntil_eq AR ip eq fuel _ _ hfuel (fun j hj => ?_)
+    ((key _).mpr (exh_at_ceil_of_le_one r hr hr1 (frames.length - p0)))
+  cases hb : isExhausted AR (iter AR ip eq j ⟨⟨frames, p0⟩, ist0, 0, r⟩) with
+  | false => rfl
+  | true => exact absurd ((key j).mp hb) (hno j hj)
+
 /-- the exhaustion condition in the property's words, constant ratio: `is_exhausted()` after `n` outputs
     holds iff `n ≥ 1`, the `R` remaining source frames have all been pulled (`R ≤ ⌊(n−1)r⌋`) and the next
     output needs a further one (`⌊(n−1)r⌋ < ⌊n r⌋`). -/
